@@ -388,6 +388,7 @@ class GroupBy:
         Count of observations for each group as numpy array containing the ikey or codes.
         Includes empty groups
         """
+        mask = self._unify_chunks_for_positional_mask(mask)
         if self.key_is_chunked:
             group_key, first_chunk_in, mask_chunks = (
                 self._resolve_mask_argument_into_chunks(mask)
@@ -829,6 +830,22 @@ class GroupBy:
 
         return first_chunk_in
 
+    def _unify_chunks_for_positional_mask(self, mask):
+        """
+        Integer positions may repeat and come in any order (array indexing semantics).
+        A chunked key cannot be indexed that way, so the chunks are unified first.
+        """
+        if isinstance(mask, list):
+            mask = np.asarray(mask)
+        if (
+            self.key_is_chunked
+            and mask is not None
+            and not isinstance(mask, slice)
+            and not pd.api.types.is_bool_dtype(mask)
+        ):
+            self._unify_group_key_chunks(keep_chunked=False)
+        return mask
+
     def _resolve_mask_argument_into_chunks(
         self, mask: Union[None, slice, np.ndarray]
     ) -> Tuple[Union[np.ndarray, pa.ChunkedArray], int, List]:
@@ -868,6 +885,7 @@ class GroupBy:
         applying the function to each chunk, and then combining the results.
         Thus, the function is applied in parallel across both the chunks of group keys and the multiple value arrays.
         """
+        mask = self._unify_chunks_for_positional_mask(mask)
         group_key, first_chunk_in, mask_chunks = (
             self._resolve_mask_argument_into_chunks(mask)
         )
